@@ -5,11 +5,14 @@
 -/
 import SRVerif.Driver.C16
 import SRVerif.Driver.C18
+import SRVerif.Driver.Solve
+import SRVerif.Driver.C17
+import SRVerif.Driver.C19
 
 open Lean SR.Drv
 
 def allHandlers : List (String × Handler) :=
-  C16.handlers ++ C18.handlers
+  C16.handlers ++ C18.handlers ++ Solve.handlers ++ C17.handlers ++ C19.handlers
 
 def handleLine (line : String) : String :=
   match Json.parse line with
